@@ -181,6 +181,8 @@ where
     }
 
     fn solve(&mut self, timeout: Duration) -> Result<Path<S>, PlanningError> {
+        #[cfg(feature = "verif")]
+        use crate::verif::SimInstant as Instant;
         let pd = self
             .problem_def
             .as_ref()
